@@ -807,7 +807,19 @@ pub fn gen_op(m: &Model, p: &Profile, seed: &OpSeed) -> Option<Op> {
                 format!("NAMES {}", chans.join(","))
             }
         }
-        K::Who => match s.pick(6) {
+        K::Who => match s.pick(8) {
+            6 | 7 => {
+                // a mask whose only wildcards are '?' (one or two characters of a nick / source)
+                let base = if s.chance(60) { nick_pick(m, p, &mut s, true) } else { any_source(m, p, &mut s) };
+                let mut cs: Vec<char> = base.chars().collect();
+                for _ in 0..(1 + s.pick(2)) {
+                    if !cs.is_empty() {
+                        let i = s.pick(cs.len());
+                        cs[i] = '?';
+                    }
+                }
+                format!("WHO {}", cs.into_iter().collect::<String>())
+            }
             0 | 1 | 2 => format!("WHO {}", chan_pick(m, p, &mut s, true)),
             3 => format!("WHO {}", nick_pick(m, p, &mut s, true)),
             4 => "WHO *".to_string(),
